@@ -7,6 +7,7 @@ package main
 // 2-4 concurrent) must reproduce the cache-less image of the revision that is served.
 
 import (
+	"encoding/hex"
 	"encoding/json"
 	"fmt"
 	"os"
@@ -22,6 +23,9 @@ type cBuild struct {
 	Crash    int    `json:"crash,omitempty"`    // exit at the k-th marker
 	Stall    string `json:"stall,omitempty"`    // "index" | "sig" | "ctl" | "dat": stall that body in its middle and SIGKILL ("sig" on an unsigned apk = "ctl")
 	StallPkg int    `json:"stall_pkg,omitempty"` // which package of the revision (install order)
+	// the repository's apk files are already those of revision Rev+1 while the index is still Rev's (a stale
+	// index): a package that was rebuilt in Rev+1 (same URL, other content) is rejected by verifyExpanded
+	FilesAhead bool `json:"files_ahead,omitempty"`
 }
 
 type cCase struct {
@@ -33,7 +37,9 @@ type cCase struct {
 	ConcCrash int   `json:"conc_crash,omitempty"` // one of them is killed at this marker
 	Plant  string   `json:"plant,omitempty"` // trunc-ctl | trunc-dat | empty-tar | cut-tar | foreign | trunc-index | stale-apk
 	Signed []bool   `json:"signed,omitempty"` // package j (base, lib, app) is a signed apk (absent: all unsigned)
+	Rebuild [][]bool `json:"rebuild,omitempty"` // revision r>0: package j is rebuilt: same version (same URL), new content
 	Race   *cRace   `json:"race,omitempty"`
+	Flight *cFlight `json:"flight,omitempty"`
 }
 
 // cRace: build A (cold) is killed at marker Kill of package Pkg (install order); build B is paused inside
@@ -109,6 +115,12 @@ func cacheMarkerAt(signedAt func(int) bool, j int, name string) int {
 
 func (cacheSuite) Gen(r *Rng, i int, tier string) any {
 	c := cCase{Seed: r.Next(), NRev: r.Range(1, 3)}
+	if r.Chance(6) {
+		// request coalescing in one process (no repository needed)
+		c.NRev = 0
+		c.Flight = &cFlight{N: r.Range(2, 4), Kind: Pick(r, []string{"index", "key"}), Size: Pick(r, []int{700, 5000, 70000, 300000}), Etag: r.Chance(70), Slow: r.Chance(50)}
+		return c
+	}
 	for j := 0; j < cacheNPkg; j++ {
 		c.Signed = append(c.Signed, r.Chance(50))
 	}
@@ -122,7 +134,28 @@ func (cacheSuite) Gen(r *Rng, i int, tier string) any {
 		}
 		c.Bumps = append(c.Bumps, b)
 	}
+	if c.NRev > 1 && r.Chance(30) {
+		// a rebuilt package: the same URL holds other content from revision rr on
+		c.Rebuild = make([][]bool, c.NRev)
+		for k := range c.Rebuild {
+			c.Rebuild[k] = make([]bool, cacheNPkg)
+		}
+		rr := r.Range(1, c.NRev-1)
+		j := r.Intn(cacheNPkg)
+		c.Bumps[rr][j] = false
+		c.Rebuild[rr][j] = true
+		// (the synthetic signature member depends on name and version only: a rebuilt signed apk would carry
+		// the very same signature bytes as its predecessor, two content ids for one content)
+		c.Signed[j] = false
+		if r.Chance(40) {
+			// the shape "rejected download, then the index lists what was rejected": nothing else changes
+			for jj := range c.Bumps[rr] {
+				c.Bumps[rr][jj] = false
+			}
+		}
+	}
 	if r.Chance(12) {
+		c.Rebuild = nil
 		c.NRev = 1
 		c.Bumps = c.Bumps[:1]
 		c.Plant = Pick(r, []string{"trunc-ctl", "trunc-dat", "empty-tar", "cut-tar", "foreign", "trunc-index", "stale-apk"})
@@ -130,6 +163,7 @@ func (cacheSuite) Gen(r *Rng, i int, tier string) any {
 	}
 	if r.Chance(8) {
 		// a build paused inside cachedPackage while another one populates the cache
+		c.Rebuild = nil
 		c.NRev = 1
 		c.Bumps = c.Bumps[:1]
 		c.Race = &cRace{Pkg: r.Intn(cacheNPkg), Kill: Pick(r, []string{"pkg.begin", "pkg.ctl", "pkg.sig", "pkg.dat", "pkg.tar"})}
@@ -176,6 +210,10 @@ func (cacheSuite) Gen(r *Rng, i int, tier string) any {
 		if warm {
 			pc, ps = 10, 5
 		}
+		if c.rebuiltAt(b.Rev+1) && r.Chance(60) {
+			b.FilesAhead = true
+			pc, ps = 20, 10
+		}
 		switch x := r.Intn(100); {
 		case x < pc:
 			b.Crash = crashK()
@@ -218,18 +256,36 @@ func (cacheSuite) Gen(r *Rng, i int, tier string) any {
 	return c
 }
 
+func (c *cCase) rebuiltAt(rev int) bool {
+	if rev <= 0 || rev >= len(c.Rebuild) || rev >= c.NRev {
+		return false
+	}
+	for _, x := range c.Rebuild[rev] {
+		if x {
+			return true
+		}
+	}
+	return false
+}
+
 func cachePkgs(c *cCase, rev int) []SPkg {
 	names := []string{"base", "lib", "app"}
 	deps := [][]string{nil, {"base"}, {"lib"}}
 	out := make([]SPkg, cacheNPkg)
 	for j := 0; j < cacheNPkg; j++ {
-		ver := 0
+		ver, rb := 0, 0
 		for r := 1; r <= rev; r++ {
 			if c.Bumps[r][j] {
-				ver = r
+				ver, rb = r, 0
+			} else if r < len(c.Rebuild) && c.Rebuild[r][j] {
+				rb++
 			}
 		}
-		rr := NewRng(c.Seed, fmt.Sprintf("pkg-%d-%d", j, ver), 0)
+		key := fmt.Sprintf("pkg-%d-%d", j, ver)
+		if rb > 0 {
+			key += fmt.Sprintf("-rebuild%d", rb)
+		}
+		rr := NewRng(c.Seed, key, 0)
 		var sb strings.Builder
 		n := rr.Range(1500, 4000) // the data section must span several reads (gzip reads 4 KiB at a time)
 		for k := 0; k < n; k++ {
@@ -256,7 +312,8 @@ type cacheEnv struct {
 	repos   []*SRepo
 	revCid  []int             // revision -> content id of its index
 	apkK1   map[string]int    // apk path -> k1 (control; data k1+1, tar k1+2, signature k1+3)
-	apkSigned map[string]bool // apk path -> has a signature section
+	apkSigned map[string]bool // apk id -> has a signature section
+	pathID  map[string]int    // apk path (URL) -> small number
 	order   [][]string        // revision -> apk base names ("base-1.0-r0") in install order
 	ref     map[string]string // digest -> "img<cid>"
 	nchild  int
@@ -291,7 +348,7 @@ func setupCacheEnv(c *cCase) (*cacheEnv, string) {
 	if err != nil {
 		return nil, err.Error()
 	}
-	e := &cacheEnv{scratch: scratch, world: filepath.Join(scratch, "world.gob"), known: newCacheKnown(), apkK1: map[string]int{}, apkSigned: map[string]bool{}, ref: map[string]string{}}
+	e := &cacheEnv{scratch: scratch, world: filepath.Join(scratch, "world.gob"), known: newCacheKnown(), apkK1: map[string]int{}, apkSigned: map[string]bool{}, pathID: map[string]int{}, ref: map[string]string{}}
 	w := &cacheWorld{World: []string{"app"}}
 	for r := 0; r < c.NRev; r++ {
 		repo := BuildSynthRepo(cachePkgs(c, r), []string{"x86_64"})
@@ -302,11 +359,15 @@ func setupCacheEnv(c *cCase) (*cacheEnv, string) {
 		e.revCid = append(e.revCid, cid)
 		e.known.addIndex(repo.Files["x86_64/APKINDEX.tar.gz"], cid)
 		for path, a := range repo.Apks {
-			if _, ok := e.apkK1[path]; !ok {
+			id := cacheApkID(path, a)
+			if _, ok := e.apkK1[id]; !ok {
 				k1 := 10*(len(e.apkK1)+1) + 1
-				e.apkK1[path] = k1
-				e.apkSigned[path] = len(cacheApkSig(a)) > 0
+				e.apkK1[id] = k1
+				e.apkSigned[id] = len(cacheApkSig(a)) > 0
 				e.known.addApk(a, k1)
+			}
+			if _, ok := e.pathID[path]; !ok {
+				e.pathID[path] = len(e.pathID) + 1
 			}
 		}
 	}
@@ -348,17 +409,26 @@ func setupCacheEnv(c *cCase) (*cacheEnv, string) {
 	return e, ""
 }
 
+// cacheApkID: one apk = its URL path and its content (a rebuilt package keeps the path)
+func cacheApkID(path string, a builtApk) string { return path + "#" + hex.EncodeToString(a.checksum) }
+
+func (e *cacheEnv) apkID(rev int, name string) string {
+	path := "x86_64/" + name + ".apk"
+	return cacheApkID(path, e.repos[rev].Apks[path])
+}
+
 func (e *cacheEnv) revsField() string {
 	var parts []string
 	for r, ord := range e.order {
 		var ps []string
 		for _, name := range ord {
-			k1 := e.apkK1["x86_64/"+name+".apk"]
+			id := e.apkID(r, name)
+			k1 := e.apkK1[id]
 			sg := "-"
-			if e.apkSigned["x86_64/"+name+".apk"] {
+			if e.apkSigned[id] {
 				sg = fmt.Sprint(k1 + 3)
 			}
-			ps = append(ps, fmt.Sprintf("%s.%d.%d.%d", sg, k1, k1+1, k1+2))
+			ps = append(ps, fmt.Sprintf("%d/%s.%d.%d.%d", e.pathID["x86_64/"+name+".apk"], sg, k1, k1+1, k1+2))
 		}
 		parts = append(parts, fmt.Sprintf("%d:%s", e.revCid[r], strings.Join(ps, "+")))
 	}
@@ -373,6 +443,9 @@ func (cacheSuite) Run(raw json.RawMessage) []Step {
 	var c cCase
 	if err := json.Unmarshal(raw, &c); err != nil {
 		return nil
+	}
+	if c.Flight != nil {
+		return runFlight(&c)
 	}
 	e, why := setupCacheEnv(&c)
 	if e != nil {
@@ -408,13 +481,22 @@ func (cacheSuite) Run(raw json.RawMessage) []Step {
 			head = b.Rev
 		}
 		o := childOpts{Cache: cache, HeadRev: head, GetRev: b.Rev, Crash: b.Crash}
+		filesRev := b.Rev
+		if b.FilesAhead && b.Rev+1 < c.NRev {
+			filesRev = b.Rev + 1
+			o.FilesRev = filesRev + 1 // (0 = same as GetRev)
+			tags = append(tags, "files-ahead-of-index")
+		}
 		if b.Stall != "" {
 			switch b.Stall {
 			case "index":
 				o.Stall = fmt.Sprintf("APKINDEX.tar.gz:%d", len(e.repos[b.Rev].Files["x86_64/APKINDEX.tar.gz"])/2)
 			default:
 				name := e.order[b.Rev][b.StallPkg%cacheNPkg]
-				a := e.repos[b.Rev].Apks["x86_64/"+name+".apk"]
+				a := e.repos[filesRev].Apks["x86_64/"+name+".apk"]
+				if len(a.bytes) == 0 {
+					a = e.repos[b.Rev].Apks["x86_64/"+name+".apk"]
+				}
 				nsig := len(cacheApkSig(a))
 				off := nsig + len(a.control)/2
 				if b.Stall == "dat" {
@@ -444,7 +526,14 @@ func (cacheSuite) Run(raw json.RawMessage) []Step {
 		if head != b.Rev {
 			tags = append(tags, "update-between-head-and-get")
 		}
-		builds = append(builds, fmt.Sprintf("on:%d:%d:%s:%d", e.revCid[head], e.revCid[b.Rev], k, extra))
+		if filesRev != b.Rev {
+			builds = append(builds, fmt.Sprintf("on:%d:%d:%s:%d:%d", e.revCid[head], e.revCid[b.Rev], k, extra, e.revCid[filesRev]))
+			if strings.HasPrefix(res.Status, "err") && strings.Contains(res.Status, "verifying") {
+				tags = append(tags, "download-rejected-by-verifyExpanded")
+			}
+		} else {
+			builds = append(builds, fmt.Sprintf("on:%d:%d:%s:%d", e.revCid[head], e.revCid[b.Rev], k, extra))
+		}
 		outs = append(outs, e.outcome(res))
 	}
 	state := abstractCache(cache, e.known)
@@ -493,7 +582,7 @@ func (cacheSuite) Run(raw json.RawMessage) []Step {
 
 // signedAt: is the j-th package in install order of revision rev a signed apk
 func (e *cacheEnv) signedAt(rev int) func(int) bool {
-	return func(j int) bool { return e.apkSigned["x86_64/"+e.order[rev][j]+".apk"] }
+	return func(j int) bool { return e.apkSigned[e.apkID(rev, e.order[rev][j])] }
 }
 
 // runRace: A (cold) is killed while it advertises package j; B starts and is paused inside cachedPackage of
